@@ -67,6 +67,15 @@ fn main() {
         ("capichild", "C19") => c19::child(&a),
         ("parsechild", "C08") => c08::child(&a),
         ("cliber", "C20") => c20::cliber_child(&a),
+        // vh decode X --in case.json : re-run ONE decode call {impl, rows, n, llrs, limit} of a replay file on the real decoder
+        ("decode", _) => {
+            let v: serde_json::Value = serde_json::from_str(&std::fs::read_to_string(a.input.as_ref().expect("--in")).unwrap()).unwrap();
+            let rows: Vec<Vec<usize>> = serde_json::from_value(v["rows"].clone()).unwrap();
+            let llrs: Vec<f64> = v["llrs"].as_array().unwrap().iter().map(|x| x.as_f64().unwrap()).collect();
+            let n = v["n"].as_u64().unwrap() as usize;
+            let mut d = decoders::build(v["impl"].as_str().unwrap(), decoders::matrix(&rows, n)).expect("name");
+            println!("{:?}", util::guarded(|| d.decode(&llrs, v["limit"].as_u64().unwrap() as usize)));
+        }
         ("gen", "C18") => c18::generate(&a),
         ("gen", "C12") => c12::generate(&a),
         ("gen", "C13") => c13::generate(&a),
